@@ -250,6 +250,41 @@ def run(ck):
                 oracle((ua ** 2).dimensionality == ua.dimensionality ** 2, "dim-hom", "dim(a**2) != dim(a)**2", rp)
             ck.count("unit/quantity layer")
 
+    # ---------------------------------------------------------------- in-place forms on array quantities whose dimensionality was already read
+    # (the dimensionality of a product / quotient / power is the product / quotient / power of the dimensionalities —
+    # also when the operation rewrites the object in place and a per-object memo is warm)
+    import numpy as np
+    for nit in (float, F):
+        ureg = pint.UnitRegistry(non_int_type=nit, cache_folder=None)
+        names = ["meter", "second", "gram", "kelvin", "inch", "hertz", "newton"]
+        for _ in range(500 if thorough else 150):
+            da = {n: rng.choice([-2, -1, 1, 2]) for n in rng.sample(names, rng.randint(1, 3))}
+            db = {n: rng.choice([-2, -1, 1, 2]) for n in rng.sample(names, rng.randint(0, 2))}
+            q = ureg.Quantity(np.array([1.5, 2.0, 4.0]), ureg.UnitsContainer(da))
+            o = ureg.Quantity(2.0, ureg.UnitsContainer(db))
+            warm = rng.random() < 0.7
+            if warm:
+                q.dimensionality, q.check("[length]"), q.is_compatible_with("meter")
+            op = rng.choice(["**=0", "**=2", "**=-1", "**=0.0", "*=", "/=", "**=Q0"])
+            try:
+                if op == "*=":
+                    q *= o
+                elif op == "/=":
+                    q /= o
+                elif op == "**=Q0":
+                    q **= ureg.Quantity(0, "")
+                else:
+                    q **= (0.0 if op == "**=0.0" else int(op[3:]))
+            except Exception as e:
+                oracle(False, "inplace-dim-raises", f"array quantity {op} raised {type(e).__name__}", {"a": str(da), "b": str(db), "op": op})
+                continue
+            want = ureg.get_dimensionality(q._units)
+            rq = {"a": {k: str(v) for k, v in da.items()}, "b": {k: str(v) for k, v in db.items()}, "op": op, "dimensionality_read_before": warm, "non_int_type": nit.__name__}
+            oracle(q.dimensionality == want, "inplace-dim", f"after {op} on an array quantity of {da}: units are {dict(q._units)} but .dimensionality reports {dict(q.dimensionality)}", rq)
+            oracle(q.dimensionless == (len(want) == 0) and q.check(want), "inplace-dim-pred", f"after {op} on an array quantity of {da}: dimensionless/check disagree with the units {dict(q._units)}", rq)
+            ck.case(key=("inplace-dim", nit.__name__, str(sorted(da.items())), op, warm))
+        ck.count("in-place dimensionality")
+
     # ---------------------------------------------------------------- equality at the Unit layer = equality of exponents
     # (different expressions of the SAME physical unit — hertz and 1/second, newton and kg·m/s², radian and nothing —
     # are different unit expressions: they must not compare equal, and equal units must hash alike)
